@@ -551,7 +551,12 @@ def u_visit_yield(c):
     c.prove("yield/transparent", ok and not problems, note=PE.dump(erased)[:300] + str(problems), only=["C01"])
     got = [e.sig() for e in PE.events([out])]
     val = "__VE1" if src == "(yield __E1)" else "None"
-    dy, dr = dec.get(("#yield", PE.dump(ast.Name(id="__ptera_exit_tag", ctx=ast.Load())))), dec.get(("#receive", PE.dump(ast.Name(id="__ptera_enter_tag", ctx=ast.Load()))))
+    # (a yield the code never asked about is still a yield: it is in the capture set on some path)
+    ky, kr = ("#yield", PE.dump(ast.Name(id="__ptera_exit_tag", ctx=ast.Load()))), ("#receive", PE.dump(ast.Name(id="__ptera_enter_tag", ctx=ast.Load())))
+    for kk in (ky, kr):
+        if kk not in dec:
+            dec[kk] = bool(c.choose(2, "instrument-unasked"))
+    dy, dr = dec[ky], dec[kr]
     exp = []
     if dy:
         exp.append(("#yield", None, PE.dump(ast.Name(id="__ptera_exit_tag", ctx=ast.Load())), PE.dump(parse_expr(val)), True))
@@ -1080,6 +1085,12 @@ class _Vault:
             return r
         return reader
 
+    class Drawer:
+        def private_names_in_a_nested_class(self, v):
+            self.__slot = v + 1
+            __tmp = self.__slot * 2
+            return __tmp, sorted(vars(self))
+
 def matcher(p):
     match p:
         case [a, *rest]:
@@ -1167,7 +1178,7 @@ def u_transform_orchestration(c):
         spec = importlib.util.spec_from_file_location(os.path.basename(p)[:-3], p)
         mod = importlib.util.module_from_spec(spec)
         spec.loader.exec_module(mod)
-        which = c.choose(17, "function")
+        which = c.choose(18, "function")
         if which >= 14:
             which -= 3  # (the objects that cannot be instrumented are 11-13 below)
         elif which >= 11:
@@ -1181,9 +1192,9 @@ def u_transform_orchestration(c):
             return
         inc, get = mod.siblings()
         fn = [mod.plain, mod.outer(5), mod.gen, mod.annotated, mod.K.method, mod.outer2(3), mod.with_defaults, mod.factory(), get,
-              mod.Texts.indented, mod.Texts.column_zero, mod._Vault.private_names, mod.matcher, mod._Vault().nested_reader()][which]
+              mod.Texts.indented, mod.Texts.column_zero, mod._Vault.private_names, mod.matcher, mod._Vault().nested_reader(), mod._Vault.Drawer.private_names_in_a_nested_class][which]
         label = ["plain", "closure", "generator", "annotated", "method", "closure-with-defaults", "default-expressions", "defaults-from-enclosing-scope",
-                 "closure-rebound-by-sibling", "method-with-multi-line-string", "method-with-text-at-column-zero", "method-with-private-names", "match-statement", "closure-in-a-method-with-private-names"][which]
+                 "closure-rebound-by-sibling", "method-with-multi-line-string", "method-with-text-at-column-zero", "method-with-private-names", "match-statement", "closure-in-a-method-with-private-names", "method-of-a-nested-class-with-private-names"][which]
         samples = {"plain": [(1,), (1, 5)], "closure": [(4,)], "generator": [], "annotated": [(3,), (3, 4, 5)], "method": [(None, 2)],
                    "closure-with-defaults": [(1,), (1, 9), (1, 9, 8)], "default-expressions": [(), (7,)], "defaults-from-enclosing-scope": [(), (3,)],
                    "closure-rebound-by-sibling": [()], "method-with-multi-line-string": [(None, 1)], "method-with-text-at-column-zero": [(None, 1)],
@@ -1191,7 +1202,9 @@ def u_transform_orchestration(c):
                    # _Class__name, and so must the rebuilt method)
                    "method-with-private-names": [(mod._Vault(), 4), (mod._Vault(), 4, 1)],
                    "match-statement": [([1, 2, 3],), ({"k": 1, "z": 2},), ("text",), (5,)],
-                   "closure-in-a-method-with-private-names": [(1,)]}[label]
+                   "closure-in-a-method-with-private-names": [(1,)],
+                   # (the names are private to the INNERMOST class: _Drawer__slot, not _Vault__slot)
+                   "method-of-a-nested-class-with-private-names": [(mod._Vault.Drawer(), 3)]}[label]
         evals_before = list(mod.EVALS)
         ksamples = {"closure-with-defaults": [{}, {"bias": 1}, {"tag": "q", "bias": 0}], "annotated": [{}, {"flag": True, "extra": 1}]}.get(label, [{}])
 
@@ -1215,7 +1228,7 @@ def u_transform_orchestration(c):
         Element = it.get_global("ptera.selector", "Element")
         first_local = {"plain": "c", "closure": "y", "generator": "i", "annotated": "z", "method": "w", "closure-with-defaults": "z",
                        "default-expressions": "r", "defaults-from-enclosing-scope": "q", "closure-rebound-by-sibling": "v",
-                       "method-with-multi-line-string": "w", "method-with-text-at-column-zero": "w", "method-with-private-names": "w", "match-statement": "rest", "closure-in-a-method-with-private-names": "r"}[label]
+                       "method-with-multi-line-string": "w", "method-with-text-at-column-zero": "w", "method-with-private-names": "w", "match-statement": "rest", "closure-in-a-method-with-private-names": "r", "method-of-a-nested-class-with-private-names": "_Drawer__tmp"}[label]
         to_instrument = True if everything else [it.call(Element, [], dict(name=first_local, capture=first_local))]
         glb = fn.__globals__
         before_name = glb.get(fn.__name__, "<<missing>>")
